@@ -57,9 +57,10 @@ func IterateProcessedTime(store storetypes.KVStore, cb func(key, val []byte) boo
 	defer iterator.Close()
 	for ; iterator.Valid(); iterator.Next() {
 		key := iterator.Key()
-		keySplit := strings.Split(string(key), "/")
-		// processed time key in prefix store has format: "consensusState/<height>/processedTime"
-		if len(keySplit) != 3 || keySplit[2] != "processedTime" {
+		// processed time key in prefix store has format: "consensusStates/<height>/processedTime", where <height>
+		// is the 16-byte big-endian encoding of the height and may itself contain the byte '/'
+		if len(key) != len(host.KeyConsensusStatePrefix)+1+16+len("/processedTime") ||
+			!strings.HasSuffix(string(key), "/processedTime") {
 			// ignore all consensus state keys
 			continue
 		}
